@@ -488,9 +488,13 @@ Definition check_c27 (fs fscen : fixture) (acts : list action) (impl : list (lis
           else
             let today := map (map view_today) oss in
             let own := map (map view_own) oss in
-            verdict (polls_eqb impl today && list_eqb inv_eqb itrace (st_trace st))
-                    (polls_eqb today own) (polls_eqb impl own)
-                    (if st_overlap st then 1 else 0)
+            let tr_ok := list_eqb inv_eqb itrace (st_trace st) in
+            if polls_eqb impl today && tr_ok then
+              verdict true (polls_eqb today own) (polls_eqb impl own) (if st_overlap st then 1 else 0)
+            else if polls_eqb impl own && tr_ok then 0
+              (* the code keeps the errors per event here: the machine with the shared
+                 list replaced by the per-event lists (the repaired code) agrees *)
+            else verdict false (polls_eqb today own) (polls_eqb impl own) (if st_overlap st then 1 else 0)
       | None => 9
       end
   | _, _ => 9
